@@ -1146,6 +1146,9 @@ class _Tree(_ArithmeticMixin, _Base):
 
         index = self._search(key)
         child = data[index].child
+        # Compare now: this can fail, and must not fail after the child has
+        # been changed, before an emptied child has been unlinked.
+        key_is_node_key = index > 0 and compare(key, data[index].key) == 0
 
         removed_first_bucket, value = child._del(key)
 
@@ -1158,7 +1161,7 @@ class _Tree(_ArithmeticMixin, _Base):
             self._p_changed = True
 
         # fix up the node key, but not for the 0'th one.
-        if index > 0 and child.size and compare(key, data[index].key) == 0:
+        if index > 0 and child.size and key_is_node_key:
             self._p_changed = True
             data[index].key = child.minKey()
 
